@@ -1,3 +1,4 @@
+(* model: c19-url *)
 (* drv_url.ml: runs the extracted URL model (Utf8Model / CanonModel /
    UrlParseModel) on an op script and prints one observation line per op in
    the text format of harness/wb_url.c.  Lines "spec <what> ..." evaluate the
